@@ -379,3 +379,65 @@ def has_nested_history(root):
         scope = h.parent.descendants()
         if any(o is not h and o.kind in ("history", "hdeep") for o in scope): return True
     return False
+
+
+# ------------------------------------------------------------------------------- invalid documents
+def invalidate(rng, root, n=1):
+    """apply n random structural corruptions (dangling target, initial outside, history without /
+    with two / conditional default, non-orthogonal multi-target, duplicate id, missing id, ...).
+    Returns the list of corruption names."""
+    import copy
+    done = []
+    for _ in range(n):
+        nodes = [x for x in root.walk()]
+        states = [x for x in nodes if x.kind in ("state", "parallel", "final")]
+        ts = [(x, t) for x in nodes for t in x.trans]
+        k = rng.choice(["dangling", "init-outside", "hist-none", "hist-two", "hist-cond", "hist-event", "multi", "dupid", "noid",
+                        "init-bad", "emptytarget", "hist-target", "initial-two", "initial-cond", "initial-outside", "multi-deep"])
+        try:
+            if k == "dangling" and ts:
+                x, t = rng.choice(ts); t.targets = (t.targets or []) + ["nosuch"]
+            elif k == "emptytarget" and ts:
+                x, t = rng.choice(ts); t.targets = []
+            elif k == "init-outside":
+                c = [x for x in states if x.proper_children() and x.kind == "state"]
+                x = rng.choice(c); outs = [s for s in states if s is not x and s not in x.descendants()]
+                x.children = [ch for ch in x.children if ch.kind != "initial"]; x.init = [rng.choice(outs).id]
+            elif k == "init-bad":
+                c = [x for x in states if x.proper_children() and x.kind == "state"]
+                x = rng.choice(c); x.children = [ch for ch in x.children if ch.kind != "initial"]; x.init = ["nosuch2"]
+            elif k in ("hist-none", "hist-two", "hist-cond", "hist-event", "hist-target"):
+                hs = [x for x in nodes if x.kind in ("history", "hdeep")]
+                h = rng.choice(hs)
+                if k == "hist-none": h.trans = []
+                elif k == "hist-two": h.trans = h.trans + [Trans(targets=list(h.trans[0].targets))]
+                elif k == "hist-cond": h.trans[0].cond = "in:" + states[0].id
+                elif k == "hist-event": h.trans[0].event = "e"
+                else:
+                    outs = [s for s in states if s is not h.parent and s not in h.parent.descendants()]
+                    h.trans[0].targets = [rng.choice(outs).id]
+            elif k in ("multi", "multi-deep") and ts:
+                x, t = rng.choice(ts)
+                comp = [s for s in nodes if s.kind in ("state", "scxml") and len(s.proper_children()) >= 2]
+                c = rng.choice(comp); a, b = rng.sample(c.proper_children(), 2)
+                if k == "multi-deep":
+                    a = rng.choice([a] + [q for q in a.descendants() if q.kind in PROPER]); b = rng.choice([b] + [q for q in b.descendants() if q.kind in PROPER])
+                t.targets = [a.id, b.id]
+            elif k == "dupid" and len(states) >= 2:
+                a, b = rng.sample(states, 2); b.id = a.id
+            elif k == "noid":
+                rng.choice([s for s in states if s.kind != "final"]).id = ""
+            elif k in ("initial-two", "initial-cond", "initial-outside"):
+                ins = [x for x in nodes if x.kind == "initial"]
+                i = rng.choice(ins)
+                if k == "initial-two": i.trans = i.trans + [Trans(targets=list(i.trans[0].targets))]
+                elif k == "initial-cond": i.trans[0].cond = "in:" + states[0].id
+                else:
+                    outs = [s for s in states if s is not i.parent and s not in i.parent.descendants()]
+                    i.trans[0].targets = [rng.choice(outs).id]
+            else: continue
+            done.append(k)
+        except (IndexError, ValueError):
+            continue
+    root.link()
+    return done
